@@ -437,3 +437,65 @@ theorem solve_result_wellformed (cs : Consts K) (sqrtF : K → K) (s : Solver K 
 
 end coherence
 end Piqp.C04
+
+/-! ### The identity preconditioner
+
+Nothing is scaled, so no invariant is needed: the stored data *are* the effective problem, and C01's identity version of the
+certificate theorem applies to every state. -/
+
+namespace Piqp.C04
+section identity
+open Piqp.C13 Piqp.C15
+variable {K : Type} [Field K] [LinearOrder K] [IsStrictOrderedRing K] [Inhabited K]
+variable {n p m : Nat}
+
+/-- with the identity preconditioner the stored data are the data `setup` packed, unscaled -/
+theorem setup_data_identity (cs : Consts K) (sqrtF : K → K) (poison : K) (hn : 0 < n) (be : Backend) (st : Settings K) (prevInfo : Info K)
+    (P : Mat K n n) (c : Vec K n) (AT : Mat K n p) (b : Vec K p) (GT : Mat K n m) (h : Option (Vec K m))
+    (xlb xub : Option (Vec K n)) :
+    (setupTyped cs sqrtF poison hn be .identity st prevInfo P c AT b GT h xlb xub).data = setupRaw cs poison hn P c AT b GT h xlb xub := rfl
+
+/-- … and after any `update` they are the previous data with the passed blocks replaced -/
+theorem update_data_identity (cs : Consts K) (sqrtF : K → K) (sparse : Bool) (maskP : Array Bool) (s : Solver K n p m)
+    (hk : s.pk = .identity) (P : Option (Mat K n n)) (c : Option (Vec K n)) (A : Option (Mat K p n)) (b : Option (Vec K p))
+    (G : Option (Mat K m n)) (h : Option (Vec K m)) (xlb xub : Option (Vec K n)) (reuse : Bool) :
+    (updateTyped cs sqrtF sparse maskP s P c A b G h xlb xub reuse).data = updateRaw cs sparse maskP s P c A b G h xlb xub ∧
+    (updateTyped cs sqrtF sparse maskP s P c A b G h xlb xub reuse).pk = .identity := by
+  unfold updateTyped
+  simp only [hk]
+  exact ⟨rfl, trivial⟩
+
+/-- **C04 + C01 for the identity preconditioner, end to end**: for *every* solver state with the identity preconditioner
+    (no invariant needed: nothing is scaled), SOLVED certifies the stored data — which by `setup_data_identity` /
+    `update_data_identity` are exactly the effective problem — at the returned point. -/
+theorem solve_solved_certificate_identity (cs : Consts K) (sqrtF : K → K) (s : Solver K n p m) (perm : Vector (Fin (n + p + m)) (n + p + m))
+    (hk : s.pk = .identity) (hsolved : (solveTyped cs sqrtF s perm).2 = Status.solved) :
+    ∃ wl : Work K n p m,
+      let res := (solveTyped cs sqrtF s perm).1
+      res.w.x = wl.x ∧ res.w.y = wl.y ∧ res.w.z = wl.z ∧ res.w.s = wl.s ∧
+      res.w.z_lb = restoreBox s.data.lb 0 wl.z_lb ∧ res.w.z_ub = restoreBox s.data.ub 0 wl.z_ub ∧
+      res.w.s_lb = restoreBox s.data.lb cs.posInf wl.s_lb ∧ res.w.s_ub = restoreBox s.data.ub cs.posInf wl.s_ub ∧
+      (∀ i : Fin n, vabs (C01.userDualRes s.data wl.x wl.y wl.z wl.z_lb wl.z_ub i) < s.st.epsAbs + s.st.epsRel * res.info.dualRelInf) ∧
+      (∀ t : Fin p, vabs (s.data.b[t] - ∑ i : Fin n, s.data.AT[i][t] * wl.x[i]) < s.st.epsAbs + s.st.epsRel * res.info.primalRelInf) ∧
+      (∀ t : Fin m, vabs (s.data.h[t] - (∑ i : Fin n, s.data.GT[i][t] * wl.x[i]) - wl.s[t]) < s.st.epsAbs + s.st.epsRel * res.info.primalRelInf) ∧
+      (∀ a : Fin n, a.val < s.data.lb.cnt →
+          vabs (s.data.lb.sc[a] * wl.x[s.data.lb.idx[a]] + s.data.lb.val[a] - wl.s_lb[a]) < s.st.epsAbs + s.st.epsRel * res.info.primalRelInf) ∧
+      (∀ a : Fin n, a.val < s.data.ub.cnt →
+          vabs (-s.data.ub.sc[a] * wl.x[s.data.ub.idx[a]] + s.data.ub.val[a] - wl.s_ub[a]) < s.st.epsAbs + s.st.epsRel * res.info.primalRelInf) ∧
+      (s.st.checkDualityGap = true → res.info.dualityGap < s.st.epsGapAbs + s.st.epsGapRel * res.info.dualityGapRel) := by
+  unfold solveTyped at hsolved ⊢
+  split at hsolved
+  · exact absurd hsolved (by simp)
+  · simp only at hsolved
+    split at hsolved
+    · exact absurd hsolved (by simp)
+    · rename_i hv hok
+      simp only [hv, hok, if_false, Bool.false_eq_true]
+      have hc := C01.solved_certificate_identity (Solver.env cs sqrtF s perm) hk _
+        (initialPoint_iter cs s (Solver.env cs sqrtF s perm) _ _ _ _) hsolved
+      obtain ⟨c1, c2, c3, c4, c5, c6, c7⟩ := hc
+      refine ⟨_, ?_, ?_, ?_, ?_, ?_, ?_, ?_, ?_, c1, c2, c3, c4, c5, c6⟩
+      all_goals simp only [restoreBoxDual, unscaleResults, hk, C01.id_primal, C01.id_dualEq, C01.id_dualIneq, C01.id_dualLb, C01.id_dualUb,
+        Precond.unscaleSlackIneq, Precond.unscaleSlackLb, Precond.unscaleSlackUb, if_true]
+end identity
+end Piqp.C04
